@@ -12,8 +12,12 @@ for c in cases:
     res = {}
     for key, ps in (('pats', c['pats']), ('perm', c['perm']),
                     ('pos', c['pats'] + [c['xpos']]), ('neg', c['pats'] + [c['xneg']])):
-        f = build_filtering_func(ps)
-        res[key] = [bool(f(n)) for n in names]
+        try:
+            f = build_filtering_func(ps)
+            res[key] = [bool(f(n)) for n in names]
+        except Exception as e:      # every pattern is a valid expression: an exception is itself an observation (no answers)
+            res[key] = []
+            res['raised'] = '%s: %s' % (type(e).__name__, e)
     # oracle: answers of `re` itself, for every pattern that may be consulted
     pset = set()
     for p in c['pats'] + c['perm'] + [c['xpos'], c['xneg']]:
